@@ -221,7 +221,7 @@ def operator_level(c, s):
         if i == 0:
             op_selftest(c, payload)
     for bm, nsr in wit:
-        op_adversarial(c, "C10", op_consts(BatchMax=bm, NSR=nsr, **dict(small, MaxEv=2 if nsr == 2 else 1)), "Dev_FlushAtFirstBarrier", 0, 0, 400, bfs=True)
+        op_adversarial(c, "C10", op_consts(BatchMax=bm, NSR=nsr, **small), "Dev_FlushAtFirstBarrier", 0, 0, 400, bfs=True)
 
 
 def run(c):
